@@ -474,7 +474,7 @@ func genAnteCell(t *rapid.T, multi bool) AnteCell {
 
 func TestC10_Combos(t *testing.T) {
 	RunProp(t, Prop[AnteCase]{
-		ID: "C10", Name: "combos", Quick: 160, Thor: 8000,
+		ID: "C10", Name: "combos", Quick: 320, Thor: 8000,
 		Gen: func(t *rapid.T) AnteCase {
 			var c AnteCase
 			n := rapid.IntRange(4, 24).Draw(t, "cells")
